@@ -49,36 +49,37 @@ type BState struct {
 }
 
 type retPoint struct {
-	pc   Term
-	vals []Val
-	heap *HeapState
+	pc    Term
+	vals  []Val
+	heap  *HeapState
+	block *ssa.BasicBlock
 }
 
 type Exec struct {
-	W          *World
-	S          *Script
-	H          *HeapEnv
-	fn         *ssa.Function
-	fc         *FuncContract
-	discovery  bool
-	loopKeys   map[string]map[string]bool
-	curLoops   []string
-	obls       []*Obligation
-	notes      map[string]bool
-	strLits    map[string]Term
-	entry      *HeapState
-	labelCount map[string]int
-	inputs     []inputVar
-	inlineMax  int
-	funcsSeen  map[string]bool
-	specDecls  map[string]bool
-	entryVars  map[string]Val
-	allocBound *Term
-	vacChecks  []*Obligation
-	localRefs  map[string]bool
-	modTargets []modTarget
+	W           *World
+	S           *Script
+	H           *HeapEnv
+	fn          *ssa.Function
+	fc          *FuncContract
+	discovery   bool
+	loopKeys    map[string]map[string]bool
+	curLoops    []string
+	obls        []*Obligation
+	notes       map[string]bool
+	strLits     map[string]Term
+	entry       *HeapState
+	labelCount  map[string]int
+	inputs      []inputVar
+	inlineMax   int
+	funcsSeen   map[string]bool
+	specDecls   map[string]bool
+	entryVars   map[string]Val
+	allocBound  *Term
+	vacChecks   []*Obligation
+	localRefs   map[string]bool
+	modTargets  []modTarget
 	explicitMod bool
-	loopLocal  map[string]map[string]bool // loop id -> key -> written at a reference that is not a modifies target
+	loopLocal   map[string]map[string]bool // loop id -> key -> written at a reference that is not a modifies target
 }
 
 // freshRef allocates a new reference in the current state of f.
@@ -401,15 +402,15 @@ type havocedKey struct {
 }
 
 type loopInfo struct {
-	havoced  []havocedKey
-	id       string
-	ordinal  int
-	head     *ssa.BasicBlock
-	phiVals  map[*ssa.Phi]Val
-	variant  *Term
-	lc       *LoopContract
-	pcHead   Term
-	fcOwner  *FuncContract
+	havoced []havocedKey
+	id      string
+	ordinal int
+	head    *ssa.BasicBlock
+	phiVals map[*ssa.Phi]Val
+	variant *Term
+	lc      *LoopContract
+	pcHead  Term
+	fcOwner *FuncContract
 }
 
 type frame struct {
@@ -684,9 +685,12 @@ func (f *frame) materialize(v Val, t types.Type) Val {
 
 func (f *frame) loopEvalCtx(li *loopInfo, heap *HeapState, phiVal func(*ssa.Phi) Val) *EvalCtx {
 	ctx := f.contractCtx(heap)
-	base := ctx.Lookup
+	// inside the body of a function names denote the current values of the variables (parameters
+	// are assignable): loop phis first, then the latest definition, then the parameter itself.
+	params := ctx.Vars
+	ctx.Vars = map[string]Val{}
+	ctx.Entry = params
 	ctx.Lookup = func(name string) (Val, bool) {
-		// phis of this head, then enclosing heads
 		for _, ins := range li.head.Instrs {
 			if ph, ok := ins.(*ssa.Phi); ok && ph.Comment == name {
 				return phiVal(ph), true
@@ -697,8 +701,11 @@ func (f *frame) loopEvalCtx(li *loopInfo, heap *HeapState, phiVal func(*ssa.Phi)
 				return scalar(BVBin("bvadd", v.One(), BVInt(1, 64)), types.Typ[types.Int]), true
 			}
 		}
-		if base != nil {
-			return base(name)
+		if v, ok := f.lookupLocal(name, heap); ok {
+			return v, true
+		}
+		if v, ok := params[name]; ok {
+			return v, true
 		}
 		return Val{}, false
 	}
@@ -732,12 +739,6 @@ func (f *frame) paramNames() []string {
 
 // lookupLocal resolves a source-level local variable name to its current SSA value.
 func (f *frame) lookupLocal(name string, heap *HeapState) (Val, bool) {
-	// real parameter names
-	for i, p := range f.fn.Params {
-		if p.Name() == name {
-			return f.params[i], true
-		}
-	}
 	// enclosing loop phis of the current block
 	for _, li := range f.loopsOf[f.curBlock] {
 		for _, ins := range li.head.Instrs {
@@ -774,7 +775,8 @@ func (f *frame) lookupLocal(name string, heap *HeapState) (Val, bool) {
 		pt := cell.Type().Underlying().(*types.Pointer)
 		return Val{T: f.x.H.Load(heap, f.x.locOf(v, pt.Elem())), Typ: pt.Elem()}, true
 	}
-	// debug refs: last one (in dominance order) that dominates the current block
+	// definitions visible at the current block: debug refs and phis named after the variable in
+	// dominating blocks; the one deepest in the dominator tree (latest in its block) is current
 	var best ssa.Value
 	var bestBlock *ssa.BasicBlock
 	var bestAddr bool
@@ -783,21 +785,28 @@ func (f *frame) lookupLocal(name string, heap *HeapState) (Val, bool) {
 			continue
 		}
 		for _, ins := range b.Instrs {
-			dr, ok := ins.(*ssa.DebugRef)
-			if !ok {
+			var cand ssa.Value
+			addr := false
+			switch t := ins.(type) {
+			case *ssa.Phi:
+				if t.Comment == name {
+					cand = t
+				}
+			case *ssa.DebugRef:
+				if id, ok := t.Expr.(*ast.Ident); ok && id.Name == name {
+					cand, addr = t.X, t.IsAddr
+				}
+			}
+			if cand == nil {
 				continue
 			}
-			id, ok := dr.Expr.(*ast.Ident)
-			if !ok || id.Name != name {
-				continue
-			}
-			if _, have := f.vals[dr.X]; !have {
-				if _, isC := dr.X.(*ssa.Const); !isC {
+			if _, have := f.vals[cand]; !have {
+				if _, isC := cand.(*ssa.Const); !isC {
 					continue
 				}
 			}
-			if bestBlock == nil || bestBlock.Dominates(b) {
-				best, bestBlock, bestAddr = dr.X, b, dr.IsAddr
+			if bestBlock == nil || bestBlock == b || bestBlock.Dominates(b) {
+				best, bestBlock, bestAddr = cand, b, addr
 			}
 		}
 	}
@@ -809,6 +818,12 @@ func (f *frame) lookupLocal(name string, heap *HeapState) (Val, bool) {
 			return Val{T: f.x.H.Load(heap, loc), Typ: pt.Elem()}, true
 		}
 		return v, true
+	}
+	// real parameter names
+	for i, p := range f.fn.Params {
+		if p.Name() == name {
+			return f.params[i], true
+		}
 	}
 	return Val{}, false
 }
@@ -871,13 +886,14 @@ func (f *frame) enterLoop(li *loopInfo, phis []*ssa.Phi) {
 				if x.loopLocal[li.id][k] {
 					fresh := x.S.Declare("hv_"+k, sortK)
 					rn := x.S.freshName("r")
-					at = Term{fmt.Sprintf("(lambda ((%s Int)) (ite (>= %s %s) (select %s %s) (select %s %s)))", rn, rn, x.entry.next.S, fresh.S, rn, x.S.Define("hvbase", at).S, rn), sortK}
+					at = Term{fmt.Sprintf("(lambda ((%s Int)) (ite (>= (owner %s) %s) (select %s %s) (select %s %s)))", rn, rn, x.entry.next.S, fresh.S, rn, x.S.Define("hvbase", at).S, rn), sortK}
 				}
 			}
 			h = x.H.Set(h, k, at)
 			li.havoced = append(li.havoced, havocedKey{k, x.H.Get(h, k, sortK)})
 		}
 		nx := x.S.Declare("next", SInt)
+		x.S.Assert(IntLt(nx, IntConst(1<<39)))
 		x.S.Assert(IntLe(entryHeap.next, nx))
 		h = x.H.WithNext(h, nx)
 	}
@@ -1198,7 +1214,7 @@ func (f *frame) step(ins ssa.Instruction) {
 		for _, r := range t.Results {
 			vals = append(vals, f.materialize(f.val(r), r.Type()))
 		}
-		f.rets = append(f.rets, retPoint{pc: f.cur.pc, vals: vals, heap: f.cur.heap})
+		f.rets = append(f.rets, retPoint{pc: f.cur.pc, vals: vals, heap: f.cur.heap, block: f.curBlock})
 		f.cur = nil
 	case *ssa.Panic:
 		label := f.srcLabel("panic", t.Pos(), isCallExpr)
